@@ -40,10 +40,27 @@ pub fn value_events(args: &Args) {
         let (pres, pval) = res3(guard(|| toml_edit::Key::parse(&text).map_err(|e| e.to_string())), |ks| {
             json!({"k": "a", "v": ks.iter().map(|k| json!({"k": "s", "v": cps(k.get())})).collect::<Vec<_>>()})
         });
+        // the single-value deserializers of both crates (C13): the value decoded into toml::Value
+        let (tres, ttree) = res3(
+            guard(|| {
+                use serde::Deserialize;
+                toml::Value::deserialize(toml::de::ValueDeserializer::new(&text)).map_err(|e| e.to_string())
+            }),
+            |v| proj::toml_value(&v),
+        );
+        let (eres, etree) = res3(
+            guard(|| {
+                use serde::Deserialize;
+                let d = text.parse::<toml_edit::de::ValueDeserializer>().map_err(|e| e.to_string())?;
+                toml::Value::deserialize(d).map_err(|e| e.to_string())
+            }),
+            |v| proj::toml_value(&v),
+        );
         writeln!(
             out,
             "{}",
             json!({"ev": "value", "id": r["id"], "text": r["text"],
+                   "vde_toml": {"res": tres, "tree": ttree}, "vde_edit": {"res": eres, "tree": etree},
                    "value": {"res": vres, "tree": vtree},
                    "key": {"res": kres, "tree": kval},
                    "keypath": {"res": pres, "tree": pval}})
